@@ -56,7 +56,7 @@ def build_pltable(wd, mc_stats, tier, seed):
     """Workloads for harness/pltabledriver from every transition of MCV2Table; returns (workloads, trace cfg, stats, nscripts)."""
     import libcheck
     import paths
-    consts = {"ValidNames": {"a", "b"}, "InvalidNames": {"", "x;y"}, "Variant": "current", "MaxP": 3, "MaxE": 3, "Tracks": {1, 2},
+    consts = {"ValidNames": {"a", "b"}, "InvalidNames": {"", "x;y"}, "Variant": "current", "MaxP": 3, "MaxE": 3, "Tracks": {1, 2, 101},
               "MaxOps": 4 if tier == "quick" else 5, "OpNames": {"a", "b", ""}}
     cfg = vlib.cfg_text("MCSpec", consts, invariants=["ChainInv"], view="MCView", action_constraints=["Emit"])
     rc, outp = vlib.run_tlc("MCV2Table", cfg, wd, "mcv2table", workers=8, timeout=1500, xmx="12g")
